@@ -148,7 +148,7 @@ func (c *Ctx) feOps(r *gen.Rand, a, b feOperand, heavy bool) {
 
 // C09: field arithmetic is GF(p) for every reachable representation.
 func C09(c *Ctx) {
-	n := c.N(160000, 8000000)
+	n := c.N(160000, 30000000)
 	for i := int64(0); i < n; i++ {
 		if !c.Mine(i) {
 			continue
